@@ -66,7 +66,9 @@ Record dtabs : Type := mk_dtabs {
 Inductive pev : Type :=
 | PLit (k : N)                                   (* MatcherTag::Item: k-th literal key event of the automaton *)
 | PChar (c : N)                                  (* Key(Char c) / TerminalCommand::Char(c) from the UTF-8 matcher *)
-| PKey (kind arg mode : N)                       (* kitty keyboard: kind 0 Esc, 1 Enter, 2 Tab, 3 Backspace, 4 F(arg), 5 Char(arg) *)
+| PKey (kind arg mode : N)                       (* Key { name, mode } decoded from parameters: kind 0 Esc, 1 Enter, 2 Tab, 3 Backspace,
+                                                    4 F(arg), 5 Char(arg), 6 Delete, 7 Insert, 8 Down, 9 End, 10 Home, 11 Left,
+                                                    12 PageDown, 13 PageUp, 14 Right, 15 Up *)
 | PKeyLevel (n : N)
 | PCursor (row col : N)
 | PMouse (name mode row col : N)                 (* name 0 Left 1 Middle 2 Right 3 Move 4 WheelDown 5 WheelUp *)
@@ -675,6 +677,41 @@ Definition dec_paste (data : list N) : outcome pres :=
   let* text := mid data 6 6 in
   if utf8_valid text then Ok (RSome (PPaste text)) else Ok RNone.
 
+(* 14 ModifiedKeyMatcher: "\x1b[{code};{1 + modifiers}{final}", final in A B C D F H P Q S ~ *)
+(* tilde_key: find_map over TILDE_KEYS (decoder.rs) *)
+Definition tilde_key (code : N) : option (N * N) :=
+  if code =? 1 then Some (10, 0) else if code =? 2 then Some (7, 0) else if code =? 3 then Some (6, 0)
+  else if code =? 4 then Some (9, 0) else if code =? 5 then Some (13, 0) else if code =? 6 then Some (12, 0)
+  else if code =? 7 then Some (7, 0) else if code =? 8 then Some (9, 0)
+  else if (11 <=? code) && (code <=? 15) then Some (4, code - 10)
+  else if (17 <=? code) && (code <=? 21) then Some (4, code - 11)
+  else if (23 <=? code) && (code <=? 24) then Some (4, code - 12)
+  else None.
+(* the arms `(b'A', 1) => Up ...` *)
+Definition final_key (f : N) : option (N * N) :=
+  if f =? 65 then Some (15, 0) else if f =? 66 then Some (8, 0) else if f =? 67 then Some (14, 0)
+  else if f =? 68 then Some (11, 0) else if f =? 70 then Some (9, 0) else if f =? 72 then Some (10, 0)
+  else if f =? 80 then Some (4, 1) else if f =? 81 then Some (4, 2) else if f =? 83 then Some (4, 4)
+  else None.
+
+Definition dec_modkey (data : list N) : outcome pres :=
+  let* body := mid data 2 1 in
+  match numbers_decode body 59 with
+  | code :: p :: _ =>
+      match checked_sub1 p with
+      | None => Ok RNone
+      | Some mode =>
+          if 255 <? mode then Ok RNone
+          else
+            let* f := index data (length data - 1) in
+            match (if f =? 126 then tilde_key code else if code =? 1 then final_key f else None) with
+            | Some (kind, arg) => Ok (RSome (PKey kind arg (N.land mode 511)))     (* KeyMod::from_bits(mode as u32) *)
+            | None => Ok RNone
+            end
+      end
+  | _ => Ok RNone
+  end.
+
 (* the payload decoders by identity (ids as assigned by translate/dfa.py from the Debug names of
    the registered matchers) *)
 Definition payload_by_id (tb : dtabs) (id : N) (data : list N) : outcome pres :=
@@ -693,6 +730,7 @@ Definition payload_by_id (tb : dtabs) (id : N) (data : list N) : outcome pres :=
   | 11 => dec_termsize data
   | 12 => dec_utf8 data
   | 13 => dec_paste data
+  | 14 => dec_modkey data
   | _ => Panic site_nomatcher
   end.
 
